@@ -30,3 +30,19 @@ def validate(ctx, module, traces, decide="Decide", next_="Next", init="Init", co
                 bad.append((off + i, fails.get(i + 1, "(no clause named: trace not fully consumed)")))
         ctx.traces += len(part) - sum(1 for i in range(len(part)) if (i + 1) not in acc)
     return bad
+
+
+def selftest(ctx, module, trace, corrupt, **kw):
+    """Binding self-test: corrupt one logged field of an ACCEPTED trace (or drop one event) and require rejection.
+    A corrupted trace that is still accepted means the trace specification does not constrain that field: machinery failure."""
+    import copy
+    t2 = copy.deepcopy(trace)
+    what = corrupt(t2)
+    if what is None:
+        return
+    before = ctx.traces
+    bad = validate(ctx, module, [t2], note="binding self-test", **kw)
+    ctx.traces = before
+    if not bad:
+        raise tlc.TLCError("binding self-test failed: %s accepted a trace after: %s" % (module, what))
+    ctx.extra.setdefault("binding_selftest", []).append({"module": module, "corruption": what, "rejected_at": bad[0][1]})
